@@ -474,6 +474,48 @@ def patterns(rng, thorough=False):
             b.ret(b.load(x, t))
             return b.m
         add("cf:self_assign:%s" % t, self_assign, "f", [t, t])
+    # F2. two loop-carried variables whose new values are computed from each other's OLD value
+    #     (t = a; a = b + 1; b = t * 2): after mem2reg the two phis must be copied in parallel
+    for t in ("i32", "u8", "i64"):
+        def cross_loop(t=t):
+            b = B("f", t, [t, t])
+            y, z = b.p
+            xa, xb, xi = b.alloc(8), b.alloc(8), b.alloc(8)
+            b.store(y, xa)
+            b.store(z, xb)
+            b.store(b.c(0, t), xi)
+            head, body, done = b.block("head"), b.block("body"), b.block("done")
+            b.jmp(head)
+            b.at(head).cj(b.load(xi, t), "<", b.c(3, t), body, done)
+            b.at(body)
+            old_a = b.load(xa, t)
+            b.store(b.bin(b.load(xb, t), "+", b.c(1, t), t), xa)
+            b.store(b.bin(old_a, "*", b.c(2, t), t), xb)
+            b.store(b.bin(b.load(xi, t), "+", b.c(1, t), t), xi)
+            b.jmp(head)
+            b.at(done).ret(b.bin(b.bin(b.load(xa, t), "*", b.c(5, t), t), "^", b.load(xb, t), t))
+            return b.m
+        add("cf:cross_loop:%s" % t, cross_loop, "f", [t, t])
+
+        def swap_loop(t=t):
+            b = B("f", t, [t, t])
+            y, z = b.p
+            xa, xb, xi = b.alloc(8), b.alloc(8), b.alloc(8)
+            b.store(y, xa)
+            b.store(z, xb)
+            b.store(b.c(0, t), xi)
+            head, body, done = b.block("head"), b.block("body"), b.block("done")
+            b.jmp(head)
+            b.at(head).cj(b.load(xi, t), "<", b.c(3, t), body, done)
+            b.at(body)
+            old_a = b.load(xa, t)
+            b.store(b.load(xb, t), xa)          # plain swap through a temporary
+            b.store(old_a, xb)
+            b.store(b.bin(b.load(xi, t), "+", b.c(1, t), t), xi)
+            b.jmp(head)
+            b.at(done).ret(b.bin(b.bin(b.load(xa, t), "*", b.c(3, t), t), "+", b.load(xb, t), t))
+            return b.m
+        add("cf:swap_loop:%s" % t, swap_loop, "f", [t, t])
     # G. tail calls
     for t, t2 in (("i32", "i8"), ("u8", "i32"), ("i32", "i32")):
         for unused_first in (True, False):
